@@ -186,6 +186,14 @@ func cryptoHistory(o opts, h int, r *rand.Rand) error {
 		}
 		before := kek.n.Load()
 		var what string
+		saveFails := r.Intn(8) == 0
+		if saveFails {
+			// every file-system step of this call's save fails (the directory is gone): the running
+			// server must cope without going back to the key-encryption key
+			if os.Rename(dir, dir+".off") != nil {
+				saveFails = false
+			}
+		}
 		switch r.Intn(7) {
 		case 0, 1, 2:
 			_, err = d.Put(su, n, mkval())
@@ -213,6 +221,10 @@ func cryptoHistory(o opts, h int, r *rand.Rand) error {
 			what = "list"
 		}
 		_ = err
+		if saveFails {
+			os.Rename(dir+".off", dir)
+			what += "-savefail"
+		}
 		leaks, modes, nfiles := scanDir(dir, markers)
 		emit("scan\thist=%d\tstep=%d\top=%s\tfiles=%d\tmarkers=%d\tleaks=%s\tmodes=%s\tkekdelta=%d", h, s, what, nfiles, len(markers), strings.Join(leaks, ","), strings.Join(modes, ","), kek.n.Load()-before)
 	}
@@ -252,6 +264,12 @@ func cryptoHistory(o opts, h int, r *rand.Rand) error {
 	}
 	for pos := off % 3; pos < len(orig); pos += max(1, stride/3) {
 		emit("tamper\thist=%d\tkind=trunc\tpos=%d\tresult=%s", h, pos, try(orig[:pos], kek))
+	}
+	// the ends, always: an empty file, one byte, all but the last byte
+	for _, pos := range []int{0, 1, 2, len(orig) - 1} {
+		if pos >= 0 && pos < len(orig) {
+			emit("tamper\thist=%d\tkind=trunc\tpos=%d\tresult=%s", h, pos, try(orig[:pos], kek))
+		}
 	}
 	_, other, _ := realKEK()
 	emit("tamper\thist=%d\tkind=wrongkey\tpos=0\tresult=%s", h, try(orig, other))
